@@ -21,7 +21,10 @@ EXPLANATION = (
     "raise is a KeyError whose name is bound at that point); (DIRS) directory "
     "creation is idempotent and precedes the write; (PROMOTE) a file is moved onto a "
     "cache name only by the call that wrote and closed it. Decides the idiom, not the "
-    "filesystem's behaviour."
+    "filesystem's behaviour. "
+    "Later rounds added: "
+    "(KEEP) the writer never deletes an entry path; (READER presence) an entry is present "
+    "iff the memory layer or the entry file says so. "
 )
 ASSUMPTIONS = (
     "POSIX rename atomicity within one directory/filesystem",
